@@ -56,6 +56,10 @@ func cliListedSources(out string) []string {
 
 // judgeC13 decides one case; cli may be "" (library-only cases).
 func judgeC13(rec *stats.Rec, c c13Case, cli string) (string, string) {
+	return apiGuard(func() (string, string) { return judgeC13Inner(rec, c, cli) })
+}
+
+func judgeC13Inner(rec *stats.Rec, c c13Case, cli string) (string, string) {
 	g := lint.GlobalRegistry()
 	all := g.Names()
 	padded := c.Pad + c.Token + c.Pad
